@@ -30,6 +30,8 @@ open Lean
 
 inductive Kind where
   | attrs | plain
+  /-- the builtin `Exception` at the root of a chain of auto_exc classes (never sent by the harness: see `fullChain`) -/
+  | exc
   deriving DecidableEq, Repr, FromJson, ToJson, Inhabited
 
 /-- `getstate_setstate=`: not passed or None / True / False -/
@@ -88,6 +90,10 @@ structure Case where
   mutate : Option String
   /-- init=False fields were assigned (raw `object.__setattr__`) after construction -/
   assignUnset : Bool
+  /-- the chain is rooted at `Exception` and every attrs class is built with `auto_exc=True` -/
+  exc : Bool
+  /-- the change of `mutate` was made in place (the same object, e.g. a list that grew), not by assignment -/
+  mutInPlace : Bool
   deriving DecidableEq, Repr, FromJson, ToJson, Inhabited
 
 /-- results and exception kinds -/
@@ -221,6 +227,10 @@ structure Summary where
   lastOwn : List String
   /-- the last class passed `getstate_setstate=False` -/
   lastOptOut : Bool
+  /-- some class so far passed `getstate_setstate=False` or wrote its own state methods -/
+  anyOptOutOrUser : Bool
+  /-- `issubclass(cls, BaseException)` with auto_exc: `is_exc` in `attrs.wrap` -/
+  isExc : Bool
   /-- every class so far was accepted at definition time and is well-formed -/
   ok : Bool
   deriving Repr, Inhabited
@@ -229,7 +239,7 @@ def Summary.init : Summary :=
   { attrs := [], gs := .dflt, hash := .identity, eq := Option.none, frozen := false, slotNames := [], hasDict := false,
     hasWeakref := false, slotEntries := [], slotsAttr := Option.none, bases := [], self := Option.none, basesOwn := [], selfOwn := Option.none,
     lastAttrs := false, lastSlots := false, lastCache := false, lastByMro := false, lastOwn := [],
-    lastOptOut := false, ok := true }
+    lastOptOut := false, anyOptOutOrUser := false, isExc := false, ok := true }
 
 def Summary.names (s : Summary) : List String := s.attrs.map (·.1.name)
 
@@ -304,6 +314,9 @@ def slotDecl (c : Cls) : List String :=
   else if c.isAttrs then c.ownNames ++ (if c.cacheHash then [CACHE] else [])
   else c.plainSlots
 
+/-- the hash block of `attrs.wrap` with `is_exc`: exceptions get neither `__eq__` nor `__hash__` -/
+def hashDecE (s : Summary) (c : Cls) (frozen : Bool) : HashDec := if s.isExc then .inherit else hashDec c frozen
+
 def step (s : Summary) (c : Cls) : Summary :=
   let attrs' := collect s.attrs c
   let names' := attrs'.map (·.1.name)
@@ -311,14 +324,15 @@ def step (s : Summary) (c : Cls) : Summary :=
   let tuple := slotsTuple s c
   { attrs := attrs',
     gs := if gsEff s.gs c then .gen names' c.cacheHash true else if c.userGS then .user else disinherit s.gs,
-    hash := (match hashDec c frozen' with
+    hash := (match hashDecE s c frozen' with
       | .gen => .gen names' c.cacheHash frozen' true
       | .none => .unhashable
       | .inherit => s.hash.disinherit),
-    eq := if c.isAttrs && c.eq then some names' else s.eq,
+    eq := if !s.isExc && c.isAttrs && c.eq then some names' else s.eq,
     frozen := frozen',
     slotNames := s.slotNames ++ slotDecl c,
-    hasDict := s.hasDict || !c.slots,
+    -- instances of BaseException always have a `__dict__`
+    hasDict := s.hasDict || !c.slots || c.kind == .exc,
     hasWeakref := s.hasWeakref || !c.slots || (c.isAttrs && c.weakrefSlot),
     slotEntries := if c.slots then s.slotEntries ++ tuple else s.slotEntries,
     slotsAttr := if c.slots then some tuple else s.slotsAttr,
@@ -329,9 +343,20 @@ def step (s : Summary) (c : Cls) : Summary :=
                       attrs := if c.isAttrs then attrs'.map (fun p => (p.1.name, p.2)) else [] },
     lastAttrs := c.isAttrs, lastSlots := c.slots, lastCache := c.isAttrs && c.cacheHash,
     lastByMro := c.collectByMro, lastOwn := c.ownNames, lastOptOut := c.isAttrs && c.gs == .f,
-    ok := s.ok && clsWf c frozen' }
+    anyOptOutOrUser := s.anyOptOutOrUser || c.userGS || (c.isAttrs && c.gs == .f),
+    isExc := s.isExc || c.kind == .exc,
+    -- cache_hash needs a generated __hash__, which an exception class never gets
+    ok := s.ok && clsWf c frozen' && (!s.isExc || !(c.isAttrs && c.cacheHash)) }
 
 def summarize (chain : List Cls) : Summary := chain.foldl step Summary.init
+
+/-- the builtin `Exception` as a chain element: no fields, no slots of its own, a `__dict__`, marks `is_exc` -/
+def excRoot : Cls :=
+  { kind := .exc, slots := true, plainSlots := [], frozen := false, cacheHash := false, weakrefSlot := false, gs := .none,
+    autoDetect := false, userGS := false, eq := false, unsafeHash := false, collectByMro := false, fields := [] }
+
+/-- the chain as attribute lookup sees it -/
+def fullChain (c : Case) : List Cls := if c.exc then excRoot :: c.chain else c.chain
 
 /-- `_is_slot_attr(name, base_attr_map)` as the last class's `__init__` generator sees it -/
 def Summary.belief (s : Summary) (n : String) : Bool :=
@@ -519,6 +544,37 @@ def roundtrip (s : Summary) (op : Op) (x : Inst) : Except R Inst :=
     else .ok { dict := fun n => (x.dict n).map (transfer op),
                slot := fun n => if n ∈ L.slotNames then (x.slot n).map (transfer op) else Option.none }
 
+/-! ## Exceptions: `BaseException.__reduce__` → `cls(*args)` + `__setstate__(__dict__)` -/
+
+/-- what `args` holds for init field `n` when the exception is copied: `BaseException.__init__(self, self.x, …)`
+    stored the construction-time values; a change made in place to that object is visible through `args`, a
+    later assignment to the field is not -/
+def argTok (c : Case) (n : String) : String := if c.mutate = some n ∧ c.mutInPlace then m0 n else v0 n
+
+/-- the instance `__dict__` as a state: the fields found there (nothing else lives in it here) -/
+def dictState (s : Summary) (op : Op) (x : Inst) : List (String × Val) :=
+  s.names.filterMap (fun n => (x.dict n).map (fun v => (n, transfer op v)))
+
+/-- copy / deepcopy / every pickle protocol of an auto_exc instance: the class is *called* with `args` (the
+    generated `__init__` runs again), then `__setstate__` — the generated one if the class resolves it, else
+    `BaseException.__setstate__`, which uses `setattr` — receives the instance `__dict__` -/
+def excRoundtrip (s : Summary) (c : Case) (x : Inst) : Except R Inst :=
+  match construct s (argTok c) false with
+  | Option.none => .error .attributeError
+  | some y0 =>
+    let st := dictState s c.op x
+    match s.gs with
+    | .gen names cache _ =>
+      (match setstateGen s.layout y0 names cache st with
+       | Option.none => .error .attributeError
+       | some y => .ok y)
+    | .user => .error .other
+    | .dflt =>
+      if s.frozen && !st.isEmpty then .error .frozenInstance
+      else match setMany (osetattr s.layout) y0 st with
+        | Option.none => .error .attributeError
+        | some y => .ok y
+
 def legacyVals (len : Nat) : List Val := (List.range len).map (fun i => .tok ("t" ++ toString i))
 
 def legacyRun (s : Summary) (len : Nat) : Except R Inst :=
@@ -567,12 +623,12 @@ def observeCopy (s : Summary) (c : Case) (orig fresh y : Inst) : Obs :=
     recomputed := hc.computed && hashesBox s && !isLegacy c.op }
 
 def model (c : Case) : Obs :=
-  let s := summarize c.chain
+  let s := summarize (fullChain c)
   match history s c c.hashedBefore, history s c false with
   | some orig, some fresh =>
     let r := match c.op with
       | .legacy len => legacyRun s len
-      | op => roundtrip s op orig
+      | op => if c.exc then excRoundtrip s c orig else roundtrip s op orig
     (match r with
      | .error e => failed e
      | .ok y => observeCopy s c orig fresh y)
